@@ -179,10 +179,10 @@ mod verif_nx_lex {
     // C13 first sentence, as a bounded stand-in for what the Verus unit `lexloop` has to assume about
     // count_leading_whitespace / count_unicode_whitespace (iterator adapters, kept as a stub there) and as the
     // executable partner of the whole-loop proof: every short text over an alphabet of blank and non-blank
-    // characters (ASCII blanks, CR, LF, U+3000, U+00A0, a 2-byte and a 3-byte letter, openers, operators).
+    // characters (ASCII blanks, CR, LF, NUL, DEL, U+3000, U+00A0, a 2-byte and a 3-byte letter, openers, operators).
     #[test]
     fn verif_nx_lex_tokspec_small() {
-        const ITEMS: [&str; 26] = ["a", "Z", "1", "_", " ", "\t", "\n", "\r", "\u{3000}", "\u{a0}", "\u{e9}", "\u{4e2d}", ".", ":", "=", "'", "\"", "{", "}", "(", "*", ")", "/", "$", "#", "\u{0}"];
+        const ITEMS: [&str; 27] = ["a", "Z", "1", "_", " ", "\t", "\n", "\r", "\u{3000}", "\u{a0}", "\u{e9}", "\u{4e2d}", ".", ":", "=", "'", "\"", "{", "}", "(", "*", ")", "/", "$", "#", "\u{0}", "\u{7f}"];
         let max_len: usize = if std::env::var("VERIF_NX_THOROUGH").is_ok() { 5 } else { 4 };
         let mut n = 0u64;
         let mut blank_after_wide = 0u64;
@@ -226,7 +226,7 @@ mod verif_nx_lex {
                 if done { break; }
             }
         }
-        assert!(n > 400_000 && blank_after_wide > 1000, "vacuity guard: {} texts, {} with a blank after U+3000", n, blank_after_wide);
+        assert!(n > 500_000 && blank_after_wide > 1000, "vacuity guard: {} texts, {} with a blank after U+3000", n, blank_after_wide);
         println!("NX verif_nx_lex_tokspec_small: {} cases", n);
     }
 }
